@@ -33,6 +33,7 @@ def functions(tier):
     # the kept callable is a class without methods in its source (a dataclass): its constructor binds the arguments
     out.append((f"dc2_{len(out)}", [("a", None), ("b", "0")]))
     out.append((f"dc3_{len(out)}", [("a", None), ("b", "None"), ("c", "'x'")]))
+    out.append((f"dcm2_{len(out)}", [("a", None), ("b", "0")]))   # a dataclass with a method but no __init__ in its source
     if tier == "thorough":
         for db, dc, dd in [(None, None, "0"), (None, "0", "None"), ("1", "''", "False")]:
             out.append((f"g4_{len(out)}", [("a", None), ("b", db), ("c", dc), ("d", dd)]))
@@ -132,6 +133,8 @@ def run_function(fname, params, table, only=None):
         if fname.startswith("dc"):
             defs = ["import dataclasses", "", "@dataclasses.dataclass", f"class {fname}:"] + \
                    [f"    {p}: object" + ("" if d is None else f" = {d}") for p, d in params] + [""]
+            if fname.startswith("dcm"):
+                defs += ["    def total(self):", "        return 1", ""]
             open(os.path.join(root, modname + "_defs.py"), "w").write("\n".join(defs))
             text = text.replace("DEFSMOD", modname + "_defs")
             dds.accept_module(modname + "_defs")
@@ -184,6 +187,68 @@ def run_function(fname, params, table, only=None):
     return ncalls, probs, len(table)
 
 
+KWONLY_MOD = '''import dds
+
+def kw1(a, *rest, b=0):
+    return 'r'
+
+def kw2(a, *, b=0, c=1):
+    return 'r'
+
+CALLS
+'''
+KWONLY_CALLS = [("kw1", "1, 2, 3, b=7"), ("kw1", "1, 2, 3, b=8"), ("kw1", "1, 2, 4, b=7"), ("kw1", "1, 2, b=7"), ("kw1", "1, b=7"), ("kw1", "1"),
+                ("kw2", "1, b=2"), ("kw2", "1, b=3"), ("kw2", "1, c=2"), ("kw2", "1, b=2, c=1"), ("kw2", "1, c=1, b=2"), ("kw2", "1")]
+
+
+def check_kwonly():
+    """functions with keyword-only parameters kept at call sites in source: a refusal is fine; signatures that are given tell the
+    bindings apart and agree for two spellings of one binding"""
+    core.ensure_repo_dds()
+    import dds
+    import dds._api as api
+    from ..stores import CaptureStore
+    root = tempfile.mkdtemp(prefix="ddsvt_c13k_")
+    modname = f"c13k_{os.getpid()}"
+    probs = []
+    try:
+        calls = "\n".join(f"def w{i}():\n    return dds.keep('/p', {fn}, {args})\n" for i, (fn, args) in enumerate(KWONLY_CALLS))
+        open(os.path.join(root, modname + ".py"), "w").write(KWONLY_MOD.replace("CALLS", calls))
+        sys.path.insert(0, root)
+        importlib.invalidate_caches()
+        mod = importlib.import_module(modname)
+        dds.accept_module(modname)
+        sigs = {}
+        for i, (fn, args) in enumerate(KWONLY_CALLS):
+            sigs[(fn, args)] = _sig_source(mod, i, CaptureStore)
+
+        def binding(fn, args):
+            ns = {}
+            exec(f"def kw1(a, *rest, b=0): return ('kw1', a, rest, b)\ndef kw2(a, *, b=0, c=1): return ('kw2', a, b, c)\nr = {fn}({args})", ns)
+            return ns["r"]
+        by_sig = {}
+        for (fn, args), s_ in sigs.items():
+            if s_[0] == "h":
+                by_sig.setdefault(s_[1], set()).add(binding(fn, args))
+        for s_, bs in by_sig.items():
+            if len(bs) > 1:
+                a, b = sorted(bs, key=repr)[:2]
+                probs.append((f"C13|collision|keyword_only|{a[0]}", f"bindings {a} and {b} of a function with keyword-only parameters share signature {s_[:8]}", {"mode": "kwonly"}))
+        by_b = {}
+        for (fn, args), s_ in sigs.items():
+            by_b.setdefault(binding(fn, args), set()).add(s_)
+        for b, ss in by_b.items():
+            if len(ss) > 1:
+                probs.append((f"C13|same_binding_differs|keyword_only|{b[0]}", f"binding {b}: {sorted(map(str, ss))[:2]}", {"mode": "kwonly"}))
+    finally:
+        api._store_var = None
+        sys.modules.pop(modname, None)
+        if root in sys.path:
+            sys.path.remove(root)
+        shutil.rmtree(root, ignore_errors=True)
+    return probs, len(KWONLY_CALLS)
+
+
 def _s(s):
     return s[1][:8] if s[0] == "h" and s[1] else str(s)
 
@@ -232,6 +297,10 @@ def run(tier, seed):
         nb += nbind
         for k, what, case in probs:
             res.violations.append(Violation(P, k, what, dict(case, mode="spelling" if "a" in case else "collision")))
+    kprobs, nk = check_kwonly()
+    ncalls += nk
+    for k, what, case in kprobs:
+        res.violations.append(Violation(P, k, what, case))
     res.violations.sort(key=lambda v: len(str(v.replay)))
     sample = tabs[2]
     res.coverage = dict(evaluations=ncalls, distinct_nontrivial=nb, exhaustive=True, functions=len(tabs), spellings=nsp,
@@ -246,6 +315,8 @@ def run(tier, seed):
 
 
 def replay(case):
+    if case.get("mode") == "kwonly":
+        return [Violation(P, k, w, c) for k, w, c in check_kwonly()[0]]
     params = [tuple(p) for p in case["params"]]
     if case["mode"] == "spelling":
         table = [(case["values"], spellings(params, case["values"]))]
